@@ -1109,6 +1109,29 @@ theorem C07_sample_flat_scored (lm : LM) (V : Nat) (eos : Option Nat) (M T : Nat
     apply List.getElem?_eq_none
     simp [sampleFlat]; omega
 
+/-- **C07_sample_scored_shape**: what `sample(sample_shape)` caches next to the sample carries the
+shape `log_prob` answers with: `log_probs.view(shape[:-1])` with `shape = sample_shape +
+batch_shape + (S,)` is a tensor of shape `sample_shape + batch_shape`, which is the sampled
+value's shape without its event dimension; and whenever the walks' scores are the scores of the
+sampled rows (`C07_sample_flat_scored` without a batch shape), the cached tensor *is*
+`log_prob(sample)` of the model distribution, shape included. -/
+theorem C07_sample_scored_shape (lm : LM) (V : Nat) (eos : Option Nat) (maxIters : Option Nat)
+    (N : Option Nat) (cache : Bool) (va : Option Bool) (raises : List (List Nat) → Bool)
+    (sampleShape : List Nat) (rows : List (List Nat)) (walkLp : List (Option Rat)) :
+    (sampleScores sampleShape N rows walkLp).shape = sampleShape ++ batchShape N ∧
+    (sampleScores sampleShape N rows walkLp).shape = (sampleValue sampleShape N rows).shape.dropLast ∧
+    (walkLp = scoreRows lm V eos N rows →
+      sampleScores sampleShape N rows walkLp =
+        (distCfg lm V eos maxIters N cache va raises).score (sampleValue sampleShape N rows)) := by
+  refine ⟨?_, rfl, ?_⟩
+  · simp [sampleScores, sampleValue, List.dropLast_concat]
+  · intro h
+    simp [sampleScores, distCfg, sampleValue, h]
+
+example : (sampleScores [2, 3] (some 2) [[1, 0]] []).shape = [2, 3, 2] ∧
+    (sampleValue [2, 3] (some 2) [[1, 0]]).shape = [2, 3, 2, 2] ∧
+    (sampleScores [] none [[1, 0]] []).shape = [] := by decide
+
 /-- **C07_log_prob_cache_flat**: the model's distribution without a batch shape, either write
 order, a language model that may raise in `log_prob` on the values `raises` names (not on the
 sample itself): after a `sample()` (any `cache_samples`, `validate_args`), every later `log_prob`
@@ -1117,21 +1140,26 @@ every other value gets `scoreRows`, i.e. `distLogProb` of each of its rows — w
 order provided no call reaches a raising scorer while caching is on. -/
 theorem C07_log_prob_cache_flat (pinned : Bool) (lm : LM) (V : Nat) (eos : Option Nat)
     (maxIters : Option Nat) (cache : Bool) (va : Option Bool)
-    (raises : List (List Nat) → Bool) (M T : Nat) (draws : List (List Nat))
+    (raises : List (List Nat) → Bool) (sampleShape : List Nat) (M T : Nat) (draws : List (List Nat))
     (heos : ∀ e, eos = some e → e < V)
     (hrows : Rows M V (draws.take T)) (hf : Forced eos M (draws.take T))
     (hr : raises (sampleFlat lm V eos M T draws) = false)
-    (ops : List (DistOp (List (List Nat)) (List (Option Rat))))
+    (ops : List (DistOp (Shaped (List Nat)) (Shaped (Option Rat))))
     (hs : SamplesScored (distCfg lm V eos maxIters none cache va raises) ops)
     (hsc : pinned = true → cache = true →
       ∀ v ∈ logProbArgs ops, Scorable (distCfg lm V eos maxIters none cache va raises) v) :
     runDist pinned (distCfg lm V eos maxIters none cache va raises) DistCache.empty
-        (.sample (M == 0) (sampleFlat lm V eos M T draws) (sampleFlatLp lm V eos M T draws) :: ops) =
+        (.sample (M == 0) (sampleValue sampleShape none (sampleFlat lm V eos M T draws))
+          (sampleScores sampleShape none (sampleFlat lm V eos M T draws)
+            (sampleFlatLp lm V eos M T draws)) :: ops) =
       (logProbArgs ops).map (refLogProb (distCfg lm V eos maxIters none cache va raises)) := by
   have := runDist_eq_ref pinned (distCfg lm V eos maxIters none cache va raises)
-    (.sample (M == 0) (sampleFlat lm V eos M T draws) (sampleFlatLp lm V eos M T draws) :: ops)
+    (.sample (M == 0) (sampleValue sampleShape none (sampleFlat lm V eos M T draws))
+      (sampleScores sampleShape none (sampleFlat lm V eos M T draws)
+        (sampleFlatLp lm V eos M T draws)) :: ops)
     DistCache.empty (cacheOk_empty _)
-    ⟨fun _ => ⟨C07_sample_flat_scored lm V eos M T draws heos hrows hf, hr⟩, hs⟩
+    ⟨fun _ => ⟨(C07_sample_scored_shape lm V eos maxIters none cache va raises sampleShape _ _).2.2
+      (C07_sample_flat_scored lm V eos M T draws heos hrows hf), hr⟩, hs⟩
     (fun h1 h2 v hv => hsc h1 h2 v (by simpa [logProbArgs] using hv))
   simpa [logProbArgs] using this
 
@@ -1146,29 +1174,36 @@ theorem C07_sample_flat_scored_nonvacuous :
   exact ⟨e, by rw [← h]; exact e⟩
 
 /-- `C07_log_prob_cache_flat` with all hypotheses together, pinned write order, caching on, a
-language model that raises on out-of-vocabulary history tokens: after the sample, a hit, another
-value, a value validation rejects (too short), `clear_cache`, the sample again. No call reaches
-the raising scorer (`hsc`), so every answer is the reference's. -/
+language model that raises on out-of-vocabulary history tokens: after `sample([2])`, a hit, another
+value, the same rows as a `(1, 2, 3)` tensor (a miss: other shape, answered with shape `(1, 2)`),
+a value validation rejects (too short), `clear_cache`, the sample again. No call reaches the
+raising scorer (`hsc`), so every answer is the reference's. -/
 theorem C07_log_prob_cache_flat_nonvacuous :
     (runDist true (distCfg exLm 3 (some 0) (some 3) none true none (oovInHistory 3))
       DistCache.empty
-      [.sample false (sampleFlat exLm 3 (some 0) 2 3 exDraws) (sampleFlatLp exLm 3 (some 0) 2 3 exDraws),
-       .logProb [[1, 2, 1], [0, 0, 0]], .logProb [[0, 0, 0], [1, 2, 1]], .logProb [[1, 2]],
-       .clearCache, .logProb [[1, 2, 1], [0, 0, 0]]]).map outcome
-    = [(none, some [some (-10), some (-2)]), (none, some [some (-1), some (-13)]),
-       (some DistErr.valueError, none), (none, some [some (-10), some (-2)])] := by
-  have hops : ∀ v ∈ logProbArgs (Scores := List (Option Rat))
-      [.logProb [[1, 2, 1], [0, 0, 0]], .logProb [[0, 0, 0], [1, 2, 1]], .logProb [[1, 2]],
-       .clearCache, .logProb [[1, 2, 1], [0, 0, 0]]],
+      [.sample false (sampleValue [2] none (sampleFlat exLm 3 (some 0) 2 3 exDraws))
+        (sampleScores [2] none (sampleFlat exLm 3 (some 0) 2 3 exDraws)
+          (sampleFlatLp exLm 3 (some 0) 2 3 exDraws)),
+       .logProb ⟨[2, 3], [[1, 2, 1], [0, 0, 0]]⟩, .logProb ⟨[2, 3], [[0, 0, 0], [1, 2, 1]]⟩,
+       .logProb ⟨[1, 2, 3], [[1, 2, 1], [0, 0, 0]]⟩, .logProb ⟨[1, 2], [[1, 2]]⟩,
+       .clearCache, .logProb ⟨[2, 3], [[1, 2, 1], [0, 0, 0]]⟩]).map outcome
+    = [(none, some ⟨[2], [some (-10), some (-2)]⟩), (none, some ⟨[2], [some (-1), some (-13)]⟩),
+       (none, some ⟨[1, 2], [some (-10), some (-2)]⟩),
+       (some DistErr.valueError, none), (none, some ⟨[2], [some (-10), some (-2)]⟩)] := by
+  have hops : ∀ v ∈ logProbArgs (Scores := Shaped (Option Rat))
+      [.logProb ⟨[2, 3], [[1, 2, 1], [0, 0, 0]]⟩, .logProb ⟨[2, 3], [[0, 0, 0], [1, 2, 1]]⟩,
+       .logProb ⟨[1, 2, 3], [[1, 2, 1], [0, 0, 0]]⟩, .logProb ⟨[1, 2], [[1, 2]]⟩,
+       .clearCache, .logProb ⟨[2, 3], [[1, 2, 1], [0, 0, 0]]⟩],
       Scorable (distCfg exLm 3 (some 0) (some 3) none true none (oovInHistory 3)) v := by
     intro v hv
     simp only [logProbArgs, List.mem_cons, List.not_mem_nil, or_false] at hv
-    rcases hv with rfl | rfl | rfl | rfl
+    rcases hv with rfl | rfl | rfl | rfl | rfl
+    · exact Or.inr (Or.inr (by decide))
     · exact Or.inr (Or.inr (by decide))
     · exact Or.inr (Or.inr (by decide))
     · exact Or.inl (by decide)
     · exact Or.inr (Or.inr (by decide))
-  have h := C07_log_prob_cache_flat true exLm 3 (some 0) (some 3) true none (oovInHistory 3) 2 3
+  have h := C07_log_prob_cache_flat true exLm 3 (some 0) (some 3) true none (oovInHistory 3) [2] 2 3
     exDraws exEos exRows exForced (by decide +kernel) _ (by simp [SamplesScored]) (fun _ _ => hops)
   have e : ((2 : Nat) == 0) = false := by decide
   rw [e] at h
@@ -1188,30 +1223,180 @@ theorem C07_log_prob_cache_nonvacuous :
   rw [h]
   decide
 
-/-- The model's state machine on the harness's own call sequence (sample, hit, other value of the
-same shape, hit again, other shape = rejected, clear, recompute), pinned write order. -/
+/-- The model's state machine on a call sequence of the harness (sample, hit, other value of the
+same shape, the sample again, a single path - sample shape `()` - twice: the second answer comes
+from the entry `log_prob` wrote and has shape `()`, a rejected value, clear, recompute), pinned
+write order. -/
 example :
     (runDist true (distCfg (fun _ _ v => -(v : Rat)) 2 (some 0) (some 2) none true none)
       DistCache.empty
-      [.sample false [[1, 0]] [some (-1)], .logProb [[1, 0]], .logProb [[1, 1]], .logProb [[1, 0]],
-       .logProb [[1]], .clearCache, .logProb [[1, 0]]]).map outcome
-    = [(none, some [some (-1)]), (none, some [some (-2)]), (none, some [some (-1)]),
-       (some DistErr.valueError, none), (none, some [some (-1)])] := by
+      [.sample false ⟨[1, 2], [[1, 0]]⟩ ⟨[1], [some (-1)]⟩, .logProb ⟨[1, 2], [[1, 0]]⟩,
+       .logProb ⟨[1, 2], [[1, 1]]⟩, .logProb ⟨[1, 2], [[1, 0]]⟩, .logProb ⟨[2], [[1, 0]]⟩,
+       .logProb ⟨[2], [[1, 0]]⟩, .logProb ⟨[1, 1], [[1]]⟩, .clearCache,
+       .logProb ⟨[1, 2], [[1, 0]]⟩]).map outcome
+    = [(none, some ⟨[1], [some (-1)]⟩), (none, some ⟨[1], [some (-2)]⟩),
+       (none, some ⟨[1], [some (-1)]⟩), (none, some ⟨[], [some (-1)]⟩),
+       (none, some ⟨[], [some (-1)]⟩),
+       (some DistErr.valueError, none), (none, some ⟨[1], [some (-1)]⟩)] := by
   decide +kernel
 
-/-- The defect on the concrete model distribution: vocabulary `{0, 1}`, `eos = 0`, three steps;
-`[0, 7, 1]` passes `_validate_sample` (the `7` sits after the first `eos`) but a language model
-with an embedding table raises on it (`oovInHistory`). After `log_prob([[1, 1, 0]])` the second
-`log_prob([[0, 7, 1]])` answers with the scores of `[[1, 1, 0]]`. -/
+/-- The write-order defect on the concrete model distribution: vocabulary `{0, 1}`, `eos = 0`,
+three steps; `[0, 7, 1]` passes `_validate_sample` (the `7` sits after the first `eos`) but a
+language model with an embedding table raises on it (`oovInHistory`). After
+`log_prob([[1, 1, 0]])` the second `log_prob([[0, 7, 1]])` answers with the scores of
+`[[1, 1, 0]]`. -/
 example :
     (runDist true (distCfg (fun _ _ v => -(v : Rat)) 2 (some 0) (some 3) none true none
         (oovInHistory 2)) DistCache.empty
-      [.logProb [[1, 1, 0]], .logProb [[0, 7, 1]], .logProb [[0, 7, 1]]]).map outcome
-    = [(none, some [some (-2)]), (some DistErr.scoring, none), (none, some [some (-2)])] ∧
+      [.logProb ⟨[1, 3], [[1, 1, 0]]⟩, .logProb ⟨[1, 3], [[0, 7, 1]]⟩,
+       .logProb ⟨[1, 3], [[0, 7, 1]]⟩]).map outcome
+    = [(none, some ⟨[1], [some (-2)]⟩), (some DistErr.scoring, none),
+       (none, some ⟨[1], [some (-2)]⟩)] ∧
     (runDist false (distCfg (fun _ _ v => -(v : Rat)) 2 (some 0) (some 3) none true none
         (oovInHistory 2)) DistCache.empty
-      [.logProb [[1, 1, 0]], .logProb [[0, 7, 1]], .logProb [[0, 7, 1]]]).map outcome
-    = [(none, some [some (-2)]), (some DistErr.scoring, none), (some DistErr.scoring, none)] := by
+      [.logProb ⟨[1, 3], [[1, 1, 0]]⟩, .logProb ⟨[1, 3], [[0, 7, 1]]⟩,
+       .logProb ⟨[1, 3], [[0, 7, 1]]⟩]).map outcome
+    = [(none, some ⟨[1], [some (-2)]⟩), (some DistErr.scoring, none),
+       (some DistErr.scoring, none)] := by
   decide +kernel
+
+/-! ## shapes of the answers; tensors the caller edits in place -/
+
+/-- **C07_log_prob_shape** (what the reference answers, shape included): when `log_prob(value)` of
+the model distribution does not raise, the answer has the shape of `value` without its event
+dimension, whatever the sample shape (`()`, `(M,)`, `(M1, M2)`, …) and with or without a batch
+shape; unless `value` is the empty sample its cells are `distLogProb` of the rows (`scoreRows`),
+and the empty sample's answer has no cells. -/
+theorem C07_log_prob_shape (lm : LM) (V : Nat) (eos : Option Nat) (maxIters : Option Nat)
+    (N : Option Nat) (cache : Bool) (va : Option Bool) (raises : List (List Nat) → Bool)
+    (v : Shaped (List Nat)) (s : Shaped (Option Rat))
+    (h : refLogProb (distCfg lm V eos maxIters N cache va raises) v = .ok s) :
+    s.shape = v.shape.dropLast ∧
+      (numSamples N v.shape ≠ 0 → s.cells = scoreRows lm V eos N v.cells) ∧
+      (numSamples N v.shape = 0 → s.cells = []) := by
+  unfold refLogProb at h
+  split at h
+  · cases h
+  · split at h
+    · next he =>
+      have he' : numSamples N v.shape = 0 := by simpa [distCfg] using he
+      injection h with h
+      subst h
+      exact ⟨rfl, fun hne => absurd he' hne, fun _ => rfl⟩
+    · next he =>
+      have he' : numSamples N v.shape ≠ 0 := by simpa [distCfg] using he
+      split at h
+      · cases h
+      · injection h with h
+        subst h
+        exact ⟨rfl, fun _ => rfl, fun h0 => absurd h0 he'⟩
+
+/-- **C07_log_prob_cache_shape** (`C07_log_prob_cache` read on the model distribution: shape
+equality of the cached answers): on a fresh model distribution - any sample shapes, batch shape set
+or not, `cache_samples` on or off - every `log_prob` of a `sample` / `log_prob` / `clear_cache`
+sequence that does not raise answers with a tensor whose shape is the shape of the value it was
+handed without the event dimension and whose cells are the scores of that value's rows: a cached
+answer is never handed out in another layout (e.g. the flattened one the scores are computed in). -/
+theorem C07_log_prob_cache_shape (lm : LM) (V : Nat) (eos : Option Nat) (maxIters : Option Nat)
+    (N : Option Nat) (cache : Bool) (va : Option Bool) (raises : List (List Nat) → Bool)
+    (ops : List (DistOp (Shaped (List Nat)) (Shaped (Option Rat))))
+    (hs : SamplesScored (distCfg lm V eos maxIters N cache va raises) ops)
+    (i : Nat) (v : Shaped (List Nat)) (s : Shaped (Option Rat))
+    (hv : (logProbArgs ops)[i]? = some v)
+    (ho : (runDist false (distCfg lm V eos maxIters N cache va raises) DistCache.empty ops)[i]?
+      = some (.ok s)) :
+    s.shape = v.shape.dropLast ∧
+      (numSamples N v.shape ≠ 0 → s.cells = scoreRows lm V eos N v.cells) ∧
+      (numSamples N v.shape = 0 → s.cells = []) := by
+  rw [C07_log_prob_cache _ ops hs, List.getElem?_map, hv] at ho
+  simp only [Option.map_some, Option.some.injEq] at ho
+  exact C07_log_prob_shape lm V eos maxIters N cache va raises v s ho
+
+/-- `C07_log_prob_cache_shape` on a sequence with a batch shape `(2,)`: a `(1, 2)`-shaped block of
+paths (sample shape `(1,)`), scored twice (the second answer comes from the cache), then the same
+rows as a `(1, 1, 2, S)` tensor: every answer has the value's shape without the event dimension. -/
+example :
+    (runDist false (distCfg (fun n _ v => -((n + v : Nat) : Rat)) 2 (some 0) (some 2) (some 2) true none)
+      DistCache.empty
+      [.logProb ⟨[1, 2, 2], [[1, 0], [1, 1]]⟩, .logProb ⟨[1, 2, 2], [[1, 0], [1, 1]]⟩,
+       .logProb ⟨[1, 1, 2, 2], [[1, 0], [1, 1]]⟩, .logProb ⟨[2, 2], [[1, 0], [1, 1]]⟩,
+       .logProb ⟨[2, 2], [[1, 0], [1, 1]]⟩]).map outcome
+    = [(none, some ⟨[1, 2], [some (-1), some (-4)]⟩), (none, some ⟨[1, 2], [some (-1), some (-4)]⟩),
+       (none, some ⟨[1, 1, 2], [some (-1), some (-4)]⟩), (none, some ⟨[2], [some (-1), some (-4)]⟩),
+       (none, some ⟨[2], [some (-1), some (-4)]⟩)] := by
+  decide +kernel
+
+/-- **C07_log_prob_cache_calls** (the repaired object: caches clones, returns a clone on a hit):
+for every script of the caller - tensors created, edited in place, sampled, scored; returned
+scores edited in place; `clear_cache` - every `log_prob` answers what a never-caching distribution
+answers for the content its argument has at the time of the call. (The cache is a value store, so
+this is `C07_log_prob_cache` on the resolved script; its content is that edits cannot reach it.) -/
+theorem C07_log_prob_cache_calls {Value Scores : Type} [DecidableEq Value]
+    (cfg : DistCfg Value Scores) (ops : List (CallOp Value Scores))
+    (hs : SamplesScored cfg (resolveCalls [] ops)) :
+    runCalls cfg ops = refCalls cfg ops :=
+  C07_log_prob_cache cfg (resolveCalls [] ops) hs
+
+/-- Caching on, validation off, the score of `v` is `10 + v`, nothing raises. -/
+def exAliasCfg : DistCfg Nat Nat :=
+  ⟨true, some false, fun _ => true, fun _ => false, fun _ => 0, fun v => 10 + v, fun _ => false⟩
+/-- `t0 = 5; log_prob(t0); t0.copy_(6); log_prob(t0)` -/
+def exEditValue : List (CallOp Nat Nat) := [.setValue 0 5, .logProb 0, .setValue 0 6, .logProb 0]
+/-- `t0 = sample()` (content `5`, the walk reports `15`); `t0.copy_(6); log_prob(t0)` -/
+def exEditSample : List (CallOp Nat Nat) := [.sample 0 false 5 15, .setValue 0 6, .logProb 0]
+/-- `t0 = 5; out0 = log_prob(t0); out0 += 100; log_prob(t0)` -/
+def exEditScores : List (CallOp Nat Nat) :=
+  [.setValue 0 5, .logProb 0, .editScores 0 (· + 100), .logProb 0]
+
+/-- **The code as pinned shares its cache with the caller** (reproduced on the implementation by
+`corpus/C07/log-prob-cache-aliases-*.json`): `log_prob(value)` stores `value` itself, `sample()`
+stores the tensor it returns, and a hit returns the cached score tensor itself. On the scorer
+`v ↦ 10 + v`: (1) the caller scores its tensor (content `5`), overwrites it in place with `6` and
+scores it again - the hit test compares the tensor with itself and the answer is `15`, the score of
+the content before the edit, where a never-caching object answers `16`; (2) the same with the
+tensor `sample()` returned; (3) the caller edits the returned scores in place (`+100`) - the next
+`log_prob` of the same value answers `115`. The copying object (`runCalls`) answers as the
+reference in all three. -/
+theorem C07_log_prob_cache_aliased_counterexample :
+    (runAliased exAliasCfg AliasState.init exEditValue).map outcome = [(none, some 15), (none, some 15)] ∧
+    (refCalls exAliasCfg exEditValue).map outcome = [(none, some 15), (none, some 16)] ∧
+    (runCalls exAliasCfg exEditValue).map outcome = [(none, some 15), (none, some 16)] ∧
+    (runAliased exAliasCfg AliasState.init exEditSample).map outcome = [(none, some 15)] ∧
+    (refCalls exAliasCfg exEditSample).map outcome = [(none, some 16)] ∧
+    (runCalls exAliasCfg exEditSample).map outcome = [(none, some 16)] ∧
+    (runAliased exAliasCfg AliasState.init exEditScores).map outcome
+      = [(none, some 15), (none, some 115)] ∧
+    (refCalls exAliasCfg exEditScores).map outcome = [(none, some 15), (none, some 15)] ∧
+    (runCalls exAliasCfg exEditScores).map outcome = [(none, some 15), (none, some 15)] := by
+  refine ⟨by decide, by decide, by decide, by decide, by decide, by decide, by decide, by decide,
+    by decide⟩
+
+/-- **C07_log_prob_cache_aliased_partial**: what the aliasing object does establish - when the
+caller never edits a tensor in place (`NoInPlace`: every tensor number is bound once, no edit of
+returned scores) it is the value store: every `log_prob` answers as a never-caching distribution. -/
+theorem C07_log_prob_cache_aliased_partial {Value Scores : Type} [DecidableEq Value]
+    (cfg : DistCfg Value Scores) (ops : List (CallOp Value Scores))
+    (hn : NoInPlace [] ops) (hs : SamplesScored cfg (resolveCalls [] ops)) :
+    runAliased cfg AliasState.init ops = refCalls cfg ops := by
+  rw [runAliased_eq_runDist cfg ops AliasState.init (by intro c hc; cases hc) hn]
+  exact C07_log_prob_cache cfg (resolveCalls [] ops) hs
+
+/-- The hypotheses of `C07_log_prob_cache_aliased_partial` on a script with a sample, a hit, two
+equal tensors (hit through equality of content), a miss, `clear_cache`. -/
+theorem C07_log_prob_cache_aliased_partial_nonvacuous :
+    let cfg : DistCfg Nat Nat :=
+      ⟨true, none, fun _ => true, fun _ => false, fun _ => 0, fun v => 10 + v, fun _ => false⟩
+    let ops : List (CallOp Nat Nat) :=
+      [.sample 0 false 5 15, .logProb 0, .setValue 1 7, .setValue 2 7, .logProb 1, .logProb 2,
+       .logProb 0, .clearCache, .logProb 2]
+    (runAliased cfg AliasState.init ops).map outcome
+      = [(none, some 15), (none, some 17), (none, some 17), (none, some 15), (none, some 17)] := by
+  intro cfg ops
+  have hn : NoInPlace (Value := Nat) (Scores := Nat) [] ops := by
+    simp [ops, NoInPlace, List.lookup]
+  have hs : SamplesScored cfg (resolveCalls [] ops) := by
+    simp [ops, resolveCalls, SamplesScored, List.lookup, cfg]
+  rw [C07_log_prob_cache_aliased_partial cfg ops hn hs]
+  decide
 
 end PdtVerif.SeqScore
